@@ -30,6 +30,8 @@ def noinline(f):
     """Inline policy of every scenario here: nothing of the reference vocabulary is looked into (each anchor is analysed on its own), but
     a helper an edit introduced (a name the reference tree does not have) is transparent - also where the canonicaliser could not
     splice it in (same new name defined in several classes)."""
+    if any(isinstance(n, (ast.Yield, ast.YieldFrom)) for n in ast.walk(f.node)):
+        return False            # the value of a generator call is what it yields, not what it returns: rules read its yields themselves
     return f.name not in _VOCAB_FUNCS and not (f.name.startswith('__') and f.name.endswith('__'))
 
 B64 = '[A-Za-z0-9+/]'
@@ -102,6 +104,12 @@ def _const_regex(A):
         raise AnalysisError('Armorable.__armor_regex is not a re.compile(...) literal')
     pat = _const_str(v.args[0])
     if pat is None:
+        # a pattern assembled from fragments: concatenation / join / % / format / f-string over literals and other class constants
+        try:
+            pat = T.const_eval(v.args[0], T.class_constants(A), owners=(A.name,))
+        except T.NotConstant:
+            pat = None
+    if not isinstance(pat, (str, bytes)):
         raise AnalysisError('Armorable.__armor_regex: pattern is not a literal')
     flags = flags_of(v.args[1]) if len(v.args) > 1 else 0
     for k in v.keywords:
@@ -338,6 +346,18 @@ def fold_crc(prog, f, octets, kind):
     return outs[0].ret.value
 
 
+def eval_crc(prog, f, octets, kind, ev):
+    """The same value by the finite-point evaluator (sa/ceval.py), for bodies the term interpreter does not fold (a lookup table built
+    in the class body or on first use, helpers with name-mangled names, default arguments).  None if that is outside its subset too."""
+    from sa import ceval
+    data = bytes(octets) if kind == 'bytes' else ceval.VBuf(bytes(octets))
+    try:
+        r = ev.call(f, None, args=(data,))
+    except (ceval.NoEval, ceval.Raised, ceval.Diverged):
+        return None
+    return r if type(r) is int else None
+
+
 def crc(rep, prog, A):
     f = A.methods.get('crc24')
     if f is None:
@@ -365,11 +385,18 @@ def crc(rep, prog, A):
                                                                               '71e68780', '15b18d00', 'd697f000', 'b7044e')])]
     if ref_crc24(b'123456789') != 0x21CF02:     # pragma: no cover   (the checker's own transcription of the RFC)
         raise AnalysisError('checker-side CRC-24 reference is wrong')
+    from sa import ceval
+    evaluator = ceval.Evaluator(prog, budget=4000000)
+    use_eval = {}
     for kind in ('bytearray', 'bytes'):
         for title, inputs in vectors:
             bad = None
             for octets in inputs:
-                got = fold_crc(prog, f, octets, kind)
+                got = None if use_eval.get(kind) else fold_crc(prog, f, octets, kind)
+                if got is None:
+                    evaluator.reset()
+                    got = eval_crc(prog, f, octets, kind, evaluator)
+                    use_eval[kind] = got is not None
                 if got is None:
                     raise AnalysisError('Armorable.crc24 does not fold to an integer on %s input %s: unmodelled shape' % (kind, bytes(octets).hex()))
                 if got != ref_crc24(octets):
@@ -412,6 +439,27 @@ def _chunk_width(pattern):
     if len(inner) == 1 and inner[0][0] == 'set' and b64 <= inner[0][1]:
         return tree[0][2]
     return None
+
+
+def _through_generator(prog, A, selfn, ps):
+    """A piece that is `sep.join(self.helper())` with `helper` a generator method an edit introduced: the pieces of sep.join(<what it yields>)."""
+    if not (len(ps) == 1 and ps[0][0] == 'V'):
+        return ps
+    node = ps[0][1]
+    if not (isinstance(node, ast.Call) and isinstance(node.func, ast.Attribute) and node.func.attr == 'join' and isinstance(node.func.value, ast.Constant) and
+            len(node.args) == 1 and isinstance(node.args[0], ast.Call) and isinstance(node.args[0].func, ast.Attribute) and not node.args[0].args and
+            T.show(node.args[0].func.value) == selfn):
+        return ps
+    h = A.find_method(node.args[0].func.attr) if hasattr(A, 'find_method') else A.methods.get(node.args[0].func.attr)
+    if h is None or h.name in _VOCAB_FUNCS or not any(isinstance(n, (ast.Yield, ast.YieldFrom)) for n in ast.walk(h.node)):
+        return ps
+    outs = [s for s in Interp(prog, Scenario(inline=noinline)).run(h) if s.raised is None]
+    ys = set(tuple(render(y) for y in s.yields) for s in outs)
+    if len(ys) != 1:
+        return ps
+    text = '%r.join([%s])' % (node.func.value.value, ', '.join(ys.pop()))
+    got = T.pieces(text)
+    return got if got else ps
 
 
 def writer(rep, prog, A):
@@ -542,7 +590,23 @@ def writer(rep, prog, A):
                       where=f.where, expected="b64encode(int_to_bytes(crc24(bytes(self)), 3))", found=shown_crc)
         # ---- header lines
         hdr = _sub(table, m.group('hdr'))
+        hdr = _through_generator(prog, A, selfn, hdr)
         ok, why = False, None
+        if len(hdr) == 1 and hdr[0][0] == 'V' and isinstance(hdr[0][1], ast.Call) and isinstance(hdr[0][1].func, ast.Attribute) and \
+                hdr[0][1].func.attr == 'join' and len(hdr[0][1].args) == 1 and isinstance(hdr[0][1].args[0], (ast.GeneratorExp, ast.ListComp)) and \
+                len(hdr[0][1].args[0].generators) > 1 and '%s.ascii_headers' % selfn in T.show(hdr[0][1].args[0].generators[0].iter):
+            rep.violation('C10.7', 'Armorable.__str__', 'several lines per header: %s' % T.show_pieces(hdr)[:100],
+                          'each supplied armor header is written as exactly one "key: value" line (the reader takes every line as a header of its own: '
+                          'a value continued on further lines comes back as a different value)', where=f.where,
+                          expected="one line per item of ascii_headers", found=T.show_pieces(hdr)[:300])
+            continue
+        if len(hdr) == 1 and hdr[0][0] == 'J' and len(hdr[0][4]) == 1 and hdr[0][4][0][0] == 'V' and T.each(hdr[0][4][0][1]) is not None and \
+                '%s.ascii_headers' % selfn in T.show(hdr[0][3]):
+            rep.violation('C10.7', 'Armorable.__str__', 'several lines per header: %s' % T.show_pieces(hdr)[:100],
+                          'each supplied armor header is written as exactly one "key: value" line (the reader takes every line as a header of its own: '
+                          'a value continued on further lines comes back as a different value)', where=f.where,
+                          expected="one line per item of ascii_headers", found=T.show_pieces(hdr)[:300])
+            continue
         if len(hdr) == 1 and hdr[0][0] == 'J':
             _, jsep, var, coll, inner = hdr[0]
             itext, itable = T.layout(inner)
@@ -591,6 +655,13 @@ def writer(rep, prog, A):
     rep.check(bl is not None and wit is None, 'C10.3', 'Armorable.__armor_regex', 'reader body language includes 76-column lines',
               'the reader must accept armor lines of up to 76 characters (RFC 4880 6.3), whatever width the writer itself uses', where=A.where,
               expected='[A-Za-z0-9+/]{1,76} per line', found=None if wit is None else 'not accepted: %r' % regexast.show_word(wit))
+    # ... with either line ending on EVERY line (armor that went through mail / a CR LF platform), for bodies of one and of several lines
+    for w in sorted(set([76] + ([width_seen] if width_seen else []))):
+        crlf = regexast.Lang.of(r'(?:%s{%d}\r\n)*(?:%s{4}){0,%d}(?:%s{4}|%s{3}=|%s{2}==)\r\n' % (B64, w, B64, w // 4 - 1, B64, B64, B64))
+        wit = crlf.witness_not_in(bl) if bl is not None else []
+        rep.check(bl is not None and wit is None, 'C10.3', 'Armorable.__armor_regex', 'reader body language includes CR LF ended %d-column lines' % w,
+                  'every body line may end in CR LF as well as LF, also the lines before the last one', where=A.where,
+                  expected='(?:\\r?\\n) after every line', found=None if wit is None else 'not accepted: %r' % regexast.show_word(wit))
     return sep_seen
 
 
